@@ -23,7 +23,7 @@ RULE = ('histories of <= 14 (quick) / 30 (thorough) steps over a pool of live Fr
 ASSUMPTIONS = ['growth applied directly to frame.columns (the FrameGO own label store) is not generated',
                'the deep snapshot (labels, per-column dtype, values, names) is the notion of "exactly as it was"']
 
-KINDS = ('bool', 'int64', 'float64', '<U3', 'object', 'M8[D]')
+KINDS = ('bool', 'int64', 'float64', '<U3', 'object', 'M8[D]', 'int8', 'float32', '<U1')
 MAX_LIVE = 7
 
 GROW = ('setitem_scalar', 'setitem_list', 'setitem_array', 'setitem_series', 'setitem_series_unaligned', 'setitem_dup', 'setitem_wrong_len',
@@ -34,6 +34,10 @@ DERIVE = ('to_frame', 'to_frame_go', 'to_frame_he', 'iloc_null', 'iloc_cols', 'i
           'shift', 'roll', 'insert', 'concat', 'ctor_frame', 'ctor_framego', 'copycopy', 'deepcopy', 'pickle', 'static_to_go', 'columns_static',
           'columns_copy', 'head', 'T_go', 'loc_all', 'unset_index', 'isna', 'clip', 'from_items')
 READ = ('values', 'len', 'display', 'columns_values', 'dtypes', 'iter', 'none')
+# content-preserving derivations that are also taken from a frame *immediately* after it has grown, before
+# anything re-reads it (observation refreshes lazily rebuilt caches and would hide stale state)
+IMMEDIATE = ('to_frame', 'to_frame_go', 'to_frame_he', 'iloc_null', 'loc_all', 'rename', 'ctor_frame', 'ctor_framego', 'deepcopy',
+             'pickle', 'static_to_go', 'columns_static', 'columns_copy')
 
 
 @st.composite
@@ -41,7 +45,7 @@ def step(draw):
     k = draw(st.sampled_from(['grow', 'grow', 'grow', 'derive', 'derive', 'read']))
     s = {'grow': GROW, 'derive': DERIVE, 'read': READ}[k]
     return {'k': k, 's': draw(st.sampled_from(s)), 't': draw(st.integers(0, 20)), 'i': draw(st.integers(0, 50)), 'j': draw(st.integers(0, 50)),
-            'dt': draw(st.sampled_from(['int64', 'float64', 'object', '<U2', 'bool']))}
+            'dt': draw(st.sampled_from(['int64', 'float64', 'object', '<U2', 'bool', '<U1', '<U6', 'int8', 'float32']))}
 
 
 def frame_cases(max_steps):
@@ -97,6 +101,16 @@ def _values_for(n, dt, seed):
         for i in range(n):
             a[i] = [None, 'x', 3, 2.5][(seed + i) % 4]
         return a
+    if dt == '<U1':
+        return np.array(['abcdefghij'[(seed + i) % 10] for i in range(n)], dtype='<U1')
+    if dt == '<U6':
+        return np.array(['w%05d' % (seed * 7 + i) for i in range(n)], dtype='<U6')
+    if dt in ('int8', 'float32'):
+        return (np.arange(n) + seed % 50).astype(dt)
+    if dt == 'int64':
+        return (np.arange(n) + seed) * (1 if seed % 2 else 100003)  # beyond int8/int32/float32 exactness for even seeds
+    if dt == 'float64':
+        return (np.arange(n) + seed) + (0.0 if seed % 2 else 0.1)  # 0.1 steps are not float32 values
     return (np.arange(n) + seed).astype(dt)
 
 
@@ -155,6 +169,24 @@ def check_frames(case):
                 r = lib(lambda: f[lab])
                 if isinstance(r, Raised):
                     raise Failure('unreadable', '%s: column %r unreadable: %r' % (what, lab, r.exc), r.where)
+            # row-wise reads of the grown container agree with its column-wise content
+            cols = [arr_list(c) for c in obs.frame_cols(f)]
+            n_ = f.shape[0]
+            v2 = lib(lambda: f.values)
+            if isinstance(v2, Raised):
+                raise Failure('unreadable', '%s: .values unreadable: %r' % (what, v2.exc), v2.where)
+            if v2.shape != (n_, m):
+                raise Failure('out-of-step', '%s: .values shape %s for frame shape %s' % (what, v2.shape, (n_, m)))
+            rows = lib(lambda: [arr_list(a) for a in f.iter_array(axis=1)]) if m else []
+            if isinstance(rows, Raised):
+                raise Failure('unreadable', '%s: iter_array(axis=1) unreadable: %r' % (what, rows.exc), rows.where)
+            for j in range(m):
+                for i in range(n_):
+                    want = cols[j][i]
+                    for nm, got in (('values', v2[i, j]), ('iter_array(axis=1)', rows[i][j] if rows else want)):
+                        got = canon(got)
+                        if not (eq(got, canon(want)) or (is_missing(got) and is_missing(want))):
+                            raise Failure('row-read', '%s: %s[%d,%d] = %r but column %d holds %r' % (what, nm, i, j, got, j, want))
 
     for stp in case['steps']:
         k, s = stp['k'], stp['s']
@@ -327,6 +359,10 @@ def check_frames(case):
         else:
             continue
         r = lib(call)
+        imm = None
+        if not expect_reject and not isinstance(r, Raised) and stp['t'] % 3 == 0:
+            route = IMMEDIATE[stp['i'] % len(IMMEDIATE)]
+            imm = (route, derive(f, route, stp))
         after = lib(obs.snap, f)
         classes.append('grow:' + s)
         if expect_reject:
@@ -352,6 +388,22 @@ def check_frames(case):
             _expect_append(before, after, new_labels, new_cols, what)
             coherent(f, what)
             tgt.snap = after
+            if imm is not None and imm[1] is not None:
+                route, d = imm
+                if isinstance(d, Raised):
+                    raise Failure('raised:%s' % d.cls, '%s then %s (before any read) raised %r' % (what, route, d.exc), d.where)
+                ds = lib(obs.snap, d)
+                if isinstance(ds, Raised):
+                    raise Failure('unreadable', '%s then %s (before any read): result unreadable: %r' % (what, route, ds.exc), ds.where)
+                if ds[0] == 'F':
+                    if ds[3:] != after[3:]:
+                        raise Failure('stale', '%s then %s (before any read): derived %s, source %s' % (what, route, short(ds[3:], 300), short(after[3:], 300)))
+                elif ds[4] != after[5]:
+                    raise Failure('stale', '%s then %s (before any read): derived labels %s, source columns %s' % (what, route, short(ds[4]), short(after[5])))
+                if len(live) < MAX_LIVE:
+                    live.append(Live(d))
+                derived_any = True
+                classes.append('derive-before-observe:' + route)
             if derived_any and new_labels:
                 grown_after_derive = True
         verify_all(ti, what)
